@@ -1061,7 +1061,10 @@ func runC20(job common.Job, em *emitter) {
 						for _, per := range []float64{0.3, 0.5, 1.4, 2.5, 17.49} {
 							doTime(c20Time{Style: st, Via: "ewmaeta", Cur: 7, Tot: 7 + items, PerNs: per})
 						}
-						doTime(c20Time{Style: st, D: int64(14 * time.Second), Via: "avgeta", Cur: 1e10, Tot: 1e10 + items})
+						for _, per := range []float64{0.3, 0.5, 1.4, 2.5, 17.49} {
+							// the average over the whole run: 1e10 items done in per x 1e10 ns
+							doTime(c20Time{Style: st, D: int64(per * 1e10), Via: "avgeta", Cur: 1e10, Tot: 1e10 + items})
+						}
 					}
 				}
 				// the freeze probes wait a good second each: side by side
